@@ -10,6 +10,7 @@ import (
 	"runtime"
 	"sort"
 	"strings"
+	"sync/atomic"
 	"testing"
 	"time"
 
@@ -33,6 +34,7 @@ var (
 	fSig    = flag.String("verif.sig", "", "violation signature to preserve (min)")
 	fBudget = flag.Int("verif.budget", 300, "minimiser re-run budget")
 	fSecs   = flag.Int("verif.secs", 0, "wall-clock cap for a batch (0 = none)")
+	fRunCap = flag.Int("verif.runcap", 90, "real-time cap for a single run in seconds (watchdog)")
 )
 
 // BatchResult is what one worker writes.
@@ -83,7 +85,7 @@ func TestVerif(t *testing.T) {
 	switch *fMode {
 	case "info":
 		b, _ := json.Marshal(map[string]any{"id": p.ID, "quick": p.Quick, "thorough": p.Thorough, "race_quick": p.RaceQuick, "race_thorough": p.RaceThorough,
-			"real": p.Real, "stub": p.Stub, "rule": p.Rule, "has_race": p.GenRace != nil})
+			"real": p.Real, "stub": p.Stub, "rule": p.Rule, "has_race": p.GenRace != nil, "hang_is_violation": p.HangIsViolation})
 		fmt.Println()
 		fmt.Println(string(b))
 	case "gen":
@@ -192,6 +194,19 @@ func batch(t *testing.T, p *Prop) {
 		os.WriteFile(tmp, b, 0o644)
 		os.Rename(tmp, filepath.Join(*fOut, fmt.Sprintf("result-%s-%d.json", *fLayer, *fWorker)))
 	}
+	// watchdog outside the bubble (reads the real clock): a single run that does not finish within
+	// the cap ends the worker with exit status 3 after the results so far were written
+	var runStart atomic.Int64
+	go func() {
+		for {
+			time.Sleep(500 * time.Millisecond)
+			if s := runStart.Load(); s != 0 && time.Since(time.Unix(0, s)) > time.Duration(*fRunCap)*time.Second {
+				flush()
+				os.WriteFile(filepath.Join(*fOut, fmt.Sprintf("hang-%s-%d", *fLayer, *fWorker)), []byte("run exceeded the real-time cap"), 0o644)
+				os.Exit(3)
+			}
+		}
+	}()
 	for k := 0; k < *fN; k++ {
 		idx := *fFrom + k**fStride
 		if *fSecs > 0 && time.Since(start) > time.Duration(*fSecs)*time.Second {
@@ -215,6 +230,7 @@ func batch(t *testing.T, p *Prop) {
 		}
 		pl.Sched.PreemptFrac = nil
 		os.WriteFile(journal, pl.JSON(), 0o644)
+		runStart.Store(time.Now().UnixNano())
 		var out *plan.Outcome
 		if *fLayer == "race" {
 			// the testing package fails (FailNow) a test in which the race detector fired: keep that
@@ -233,6 +249,7 @@ func batch(t *testing.T, p *Prop) {
 		} else {
 			out = execute(t, p, pl, false)
 		}
+		runStart.Store(0)
 		rw.poll(p.ID, out)
 		res.Runs++
 		res.NextIndex = idx + *fStride
